@@ -50,6 +50,8 @@ def main():
         # deterministic reproducers of every repaired crash first: a regression is a plain VIOLATION
         # ... then the targeted families (operator neighbourhoods the general profiles rarely produce, see c13_gen.py)
         outs = c13_corpus.run() + c13_gen.run(ck.seed, 3900 if ck.thorough else 390) + outs
+        # in addition: gen2:<p> = the OUTPUT of profile <p> compiled again (harness/regen.py); the ending judged is the last one
+        outs += pipe_common.run_corpus(ck, n // 8, profiles=["gen2:mixed", "gen2:pattern", "gen2:cpu"], want={"more_opts": True}, corpus_first=False)
     reqs = []
     for o in outs:
         if "harness_exception" in o:
